@@ -162,6 +162,8 @@ def check_C01(tier, seed):
         "integers beyond +-2^29 and floats that need rounding are outside this leg (C06 covers the full integer range)",
     ]
     sem_leg(o, "corpus", ["--family", "corpus"], 1, seed, shards=1, gen_cmd="gen-corpus", sens=8)
+    # the order of effects and the point of errors: every composite construct with operands that announce themselves
+    directed_leg(o, "effects-order", "effects-order")
     n = size(tier, 2400, 60000)
     sem_leg(o, "random-mixed", ["--family", "mixed"], n, seed)
     sem_leg(o, "random-calls", ["--family", "calls"], n // 3, seed + 1)
@@ -445,6 +447,9 @@ def check_C09(tier, seed):
     ]
     n = size(tier, 2400, 60000)
     sem_leg(o, "names", ["--family", "names"], n, seed)
+    # variables in nested blocks of every kind, at top level and in functions (called twice, and from a function with
+    # locals of its own): every variable has a value of its own that is checked after the inner blocks are gone
+    directed_leg(o, "slots", "slots")
     rel_leg(o, "laws", "names", n // 2, seed)
     o.extra["rule"] = ("programs with a small identifier pool (the same name reused across blocks, functions and nesting levels), "
                        "shadowing, same-scope re-declaration and deliberately stray identifiers; each validated against NlStatic+NlSem, "
@@ -1197,7 +1202,7 @@ def check_C07(tier, seed):
         "the parser's tree is read through the hook `verif::ast_json` (a projection of the tree returned by the public parse)",
     ]
     wd = core.workdir("C07_vectors")
-    fams = ["pairs", "opassign"] + (["triples"] if tier == "thorough" else [])
+    fams = ["pairs", "opassign", "statements"] + (["triples"] if tier == "thorough" else [])
     vecs = []
     for fam in fams:
         r = tlc_vectors("MC_Grammar.tla", "MC_Grammar.cfg", wd, env={"FAMILY": fam})
@@ -1236,7 +1241,7 @@ def check_C07(tier, seed):
     # M1: the specified parser inverts the specified printer on the enumerated families
     t1 = time.time()
     wd3 = core.workdir("C07_roundtrip")
-    fams3 = ["pairs"] + (["triples"] if tier == "thorough" else [])
+    fams3 = ["pairs", "statements"] + (["triples"] if tier == "thorough" else [])
     for fam in fams3:
         r = core.run_tlc("MC_ParseRoundTrip.tla", "MC_ParseRoundTrip.cfg", env={"FAMILY": fam}, workdir_=wd3, workers=4, timeout=3000)
         if r.error or r.violated:
